@@ -38,6 +38,10 @@ func GenOverlap(t *rapid.T) *OverlapCase {
 		c.Handlers[0].Async, c.Handlers[0].Ctx = false, true
 		c.CancelEvery = 0
 	}
+	if rapid.IntRange(0, 2).Draw(t, "hasOnces") == 0 {
+		c.Onces = rapid.IntRange(1, 3).Draw(t, "onces")
+		c.OnceBetween = rapid.Bool().Draw(t, "onceBetween")
+	}
 	np := rapid.IntRange(2, 8).Draw(t, "np")
 	for i := 0; i < np; i++ {
 		c.Publishers = append(c.Publishers, rapid.IntRange(1, 20).Draw(t, "n"))
